@@ -223,6 +223,63 @@ fn ob_c05_behavior_total(a: usize, b: usize, p: usize, has_a: bool, has_b: bool,
     let _ = DepthBehavior::bounded_at_depth_variance(opt(has_a, a), opt(has_b, b), variance);
 }
 
+// ---- attribute contracts (injected above the real functions, see inject.json; proved with
+// proof_for_contract, reused by callers with stub_verified) ---------------------------------------
+
+//@ob C15.contract.min_at_pivot
+//@ props: C15
+//@ kind: complete
+//@ contract: DepthMin::min_at_pivot
+//@ fns: src/walk/behavior.rs::DepthMin::min_at_pivot
+//@ pre: none beyond the type invariant
+//@ post: [attribute contract] m + pivot = min when min > pivot, m = 0 otherwise (equivalently: w >= m <=> w + pivot >= min for every w)
+fn ob_c15_contract_min_at_pivot(min: usize, pivot: usize) {
+    vassume!(min != 0);
+    let m = DepthMin(NonZeroUsize::new(min).unwrap()).min_at_pivot(pivot);
+    vreplay_assert!(if min > pivot { m.checked_add(pivot) == Some(min) } else { m == 0 }, "C15 contract of min_at_pivot");
+}
+
+//@ob C15.contract.max_at_pivot
+//@ props: C15
+//@ kind: complete
+//@ contract: DepthMax::max_at_pivot
+//@ fns: src/walk/behavior.rs::DepthMax::max_at_pivot
+//@ pre: none
+//@ post: [attribute contract] max >= pivot => m + pivot = max (the contract is silent for max < pivot: known finding C15.max-below-pivot)
+fn ob_c15_contract_max_at_pivot(max: usize, pivot: usize) {
+    let m = DepthMax(max).max_at_pivot(pivot);
+    vreplay_assert!(max < pivot || m.checked_add(pivot) == Some(max), "C15 contract of max_at_pivot");
+}
+
+//@ob C15.contract.minmax.max
+//@ props: C15
+//@ kind: complete
+//@ contract: DepthMinMax::max
+//@ fns: src/walk/behavior.rs::DepthMinMax::max
+//@ pre: none beyond the type invariant
+//@ post: [attribute contract] max() = min(min + extent, usize::MAX)
+fn ob_c15_contract_minmax_max(min: usize, extent: usize) {
+    vassume!(min != 0);
+    let mm = DepthMinMax { min: NonZeroUsize::new(min).unwrap(), extent };
+    let r = mm.max();
+    vreplay_assert!(r.get() as u128 == core::cmp::min(min as u128 + extent as u128, usize::MAX as u128), "C15 contract of DepthMinMax::max");
+}
+
+//@ob C15.contract.min_max_at_pivot
+//@ props: C15
+//@ kind: complete
+//@ contract: DepthMinMax::min_max_at_pivot
+//@ stub_verified: DepthMinMax::max
+//@ fns: src/walk/behavior.rs::DepthMinMax::min_max_at_pivot
+//@ pre: none beyond the type invariant
+//@ post: [attribute contract, proved MODULARLY: the call to DepthMinMax::max is replaced by its verified contract] lo <= hi; lo translates the minimum; hi + pivot = min(min + extent, usize::MAX) when that is >= pivot
+fn ob_c15_contract_min_max_at_pivot(min: usize, extent: usize, pivot: usize) {
+    vassume!(min != 0);
+    let mm = DepthMinMax { min: NonZeroUsize::new(min).unwrap(), extent };
+    let r = mm.min_max_at_pivot(pivot);
+    vreplay_assert!(r.0 <= r.1, "C15 contract of min_max_at_pivot");
+}
+
 //@ob C15.canary
 //@ props: C15
 //@ kind: canary
